@@ -111,10 +111,10 @@ func TestC17(t *testing.T) {
 		}
 		targets = append(targets, tg)
 	}
-	for i := 0; i < mon.Pick(60, 400); i++ {
+	for i := 0; i < mon.Pick(60, 3000); i++ {
 		targets = append(targets, RandomizedTarget(i))
 	}
-	for i := 0; i < mon.Pick(90, 600); i++ {
+	for i := 0; i < mon.Pick(90, 5000); i++ {
 		targets = append(targets, CustomTarget(i))
 	}
 	cookieSizes := []int{0, 1, 32, 1000, 20000}
